@@ -33,10 +33,16 @@ CONSTANTS EmitJson,
 Priors   == {"absent", "own", "ownnoop", "ownlong", "ownstub", "owncase", "older", "garbage", "empty", "dir", "parentfile"}
     \* own output of an earlier run with other flags: ownnoop (-fmt noop), ownlong (-with-resets, longer), ownstub (-stub),
     \* owncase (a mock name that differs in letter case only); empty: a zero-byte file
-Mods     == {"tidy", "stale"}   \* stale: go.mod lacks a requirement the go command could add if it were allowed to write
-OutModes == {"stdout", "file", "newdir", "otherpkg"}
+Mods     == {"tidy", "stale", "nobody", "badimport", "typeerr"}
+    \* stale: go.mod lacks a requirement the go command could add if it were allowed to write;
+    \* nobody: a function declared without a body (only the compiler objects, the type checker does not);
+    \* badimport: a file of the package imports a package that does not exist;
+    \* typeerr: a file of the package has a type error and nothing else wrong (var limit int = "ten")
+OutModes == {"stdout", "file", "newdir", "otherpkg", "longname"}
+    \* longname: like file, with a file name of 250 bytes (legal, but nothing may be appended to it);
     \* newdir: -out below directories that do not exist yet; otherpkg: -pkg mocks -out mocks/... in an existing directory
-ArgKinds == {"ok", "ok2", "okalias", "missing1", "missing2", "notiface2", "badalias", "dup", "one", "none"}
+ArgKinds == {"ok", "ok2", "okalias", "missing1", "missing2", "notiface2", "badalias", "dup", "flagslast", "one", "none"}
+    \* flagslast: a flag after the positional arguments (Store -stub): flag parsing has stopped, it is looked up as an interface;
     \* one: the source directory only, no interface; dup: one mock name requested twice (Store Other:StoreMock); rejected while the arguments are looked up
 Faults   == {"none", "stdoutfull", "write"}
 FlagKinds == {"none", "version", "help", "bad"}   \* -version / -h / an undefined flag in front of everything else
@@ -51,16 +57,18 @@ Sane(s) ==
     /\ (s.out # "stdout") => s.fault \in {"none", "write"}
     /\ (s.out = "newdir") => s.prior \in {"absent", "parentfile"}
     /\ (s.out = "file") => s.prior \notin {"parentfile", "owncase"}
-    /\ (s.out = "otherpkg") => (s.prior \in {"absent", "own", "owncase", "ownstub", "garbage"} /\ s.args \in {"ok", "okalias", "missing2"})
+    /\ (s.out = "otherpkg") => (s.prior \in {"absent", "own", "owncase", "ownstub", "garbage"} /\ s.args \in {"ok", "okalias", "missing2", "flagslast"})
     /\ (s.prior = "owncase") => s.args = "okalias"
     /\ (s.args = "okalias") => s.out = "otherpkg"
     /\ (s.prior \in {"ownstub", "empty"}) => s.args \in {"ok", "ok2", "missing2"}
     /\ (s.fault = "write") => AllowTruncFault
-    /\ (s.fault # "none") => (s.args \in {"ok", "ok2"} /\ s.out # "otherpkg")
-    /\ (s.mod = "stale") => (s.prior = "absent" /\ s.fault = "none" /\ s.args = "ok")
+    /\ (s.fault # "none") => (s.args \in {"ok", "ok2"} /\ (s.out = "otherpkg" => s.prior \in {"absent", "own"}))
+    /\ (s.mod # "tidy") => (s.prior = "absent" /\ s.fault = "none" /\ s.args = "ok" /\ s.out \in {"stdout", "file"})
+    /\ (s.out = "longname") => (s.prior \in {"absent", "own"} /\ s.args = "ok" /\ s.fault = "none" /\ s.mod = "tidy" /\ s.flag = "none")
     /\ (s.prior \in {"ownnoop", "ownlong"}) => (s.out = "file" /\ s.args \in {"ok", "ok2"})
     /\ (s.flag # "none") => (s.fault = "none" /\ s.mod = "tidy" /\ s.args \in {"ok", "none", "missing1"}
                               /\ s.prior \in {"absent", "own", "garbage"} /\ s.out \in {"stdout", "file"})
+    /\ (s.args = "flagslast") => (s.flag = "none" /\ s.fault = "none" /\ s.mod = "tidy" /\ s.prior \in {"absent", "own"})
     /\ (s.args = "one") => (s.flag = "none" /\ s.fault = "none" /\ s.mod = "tidy" /\ s.prior \in {"absent", "own"} /\ s.out \in {"stdout", "file"})
 
 VARIABLES sc,        \* the scenario
@@ -124,7 +132,7 @@ Load ==
 
 Lookup ==
     /\ pc = "lookup"
-    /\ CASE sc.args \in {"missing1", "missing2"} -> Fail("notfound")
+    /\ CASE sc.args \in {"missing1", "missing2", "flagslast"} -> Fail("notfound")
          [] sc.args = "notiface2" -> Fail("notiface")
          [] sc.args = "dup" -> Fail("dupname")
          [] OTHER -> pc' = "format" /\ UNCHANGED <<stderr, usage, exit>>
